@@ -47,16 +47,25 @@ func VerifHarness_C06_O1() {
 		for id, v := range s.nodes[to].c.knownEvents() {
 			kn[id] = v
 		}
-		// an overlapping answer repeats events; the node reports the (normal)
-		// error for those and carries on, as Node.sync does
-		_ = s.pullKnown(from, to, limit, true, stale)
+		if err := s.pullKnown(from, to, limit, true, stale); err != nil && stale == nil {
+			// (an overlapping answer repeats events; whatever the node reports for
+			// those, Node.sync logs it and carries on)
+			panic(fmt.Sprintf("prefix step %d: %v", st, err))
+		}
 		prevKnown[to] = kn
 	}
 	live := []int{0, 1, 2, 3}
 	if silentFrom < 1<<30 {
 		live = []int{0, 1, 2}
 	}
-	cycles := 12
+	s.fairPhaseAndCheck(live, 12)
+	verifObserve("blocks", len(s.nodes[0].blocks))
+	verifReach("end")
+}
+
+// fairPhaseAndCheck: `cycles` all-pairs cycles among the live validators without
+// new submissions, then the C06 oracle.
+func (s *verifSys) fairPhaseAndCheck(live []int, cycles int) {
 	for c := 0; c < cycles; c++ {
 		for _, to := range live {
 			for _, from := range live {
@@ -83,6 +92,22 @@ func VerifHarness_C06_O1() {
 				verifAssert("every-accepted-transaction-committed-exactly-once-by-every-live-node", seen[string([]byte{byte(j), byte(q)})] == 1)
 			}
 		}
+		// every transaction carried by an event the node holds (whoever created it)
+		for _, p := range s.peers {
+			evs, err := nd.c.hg.Store.ParticipantEvents(p.PubKeyString(), -1)
+			if err != nil {
+				continue
+			}
+			for _, h := range evs {
+				ev, err := nd.c.hg.Store.GetEvent(h)
+				if err != nil {
+					continue
+				}
+				for _, tx := range ev.Transactions() {
+					verifAssert("every-transaction-in-a-held-event-committed-exactly-once", seen[string(tx)] == 1)
+				}
+			}
+		}
 		verifAssert("same-number-of-blocks-on-all-live-nodes", len(nd.blocks) == len(s.nodes[live[0]].blocks))
 		verifAssert("node-idle-after-fair-gossip", !nd.c.busy())
 	}
@@ -91,6 +116,53 @@ func VerifHarness_C06_O1() {
 		liveSys.nodes = append(liveSys.nodes, s.nodes[i])
 	}
 	liveSys.checkInvariants(0)
-	verifObserve("blocks", len(s.nodes[0].blocks))
+}
+
+// C06/O2 — overlapping syncs, then silence.  Validator 3 records a transaction
+// while pulling from q1; validator X sends its known-map to 3, and BEFORE the
+// answer is processed completes a sync with q2 (optionally 3 also pulls once
+// more, from q3, so that what it later serves has events behind its loaded
+// one); then 3's answer to the stale request arrives — it repeats events X got
+// meanwhile — and 3 falls silent for good.  With or without a warm-up round
+// (without: the repeated events are validators' FIRST events).  Fair phase and
+// oracle as O1.
+func VerifHarness_C06_O2() {
+	s := verifNewSys(4)
+	x := 0
+	if verifTier() > 0 {
+		x = verifChoice("puller", 3)
+	}
+	if verifChoice("warmup", 2) == 1 {
+		for st := 0; st < 4; st++ {
+			if err := s.pullTx((st+1)%4, st, -1, true); err != nil {
+				panic(err)
+			}
+		}
+	}
+	q1 := verifChoice("q1", 3)
+	if err := s.pullTx(q1, 3, -1, true); err != nil {
+		panic(err)
+	}
+	stale := map[uint32]int{}
+	for id, v := range s.nodes[x].c.knownEvents() {
+		stale[id] = v
+	}
+	q2 := (x + 1 + verifChoice("q2", 2)) % 3
+	if err := s.pullTx(q2, x, -1, true); err != nil {
+		panic(err)
+	}
+	if q3 := verifChoice("q3", 4); q3 < 3 {
+		if err := s.pullTx(q3, 3, -1, false); err != nil {
+			panic(err)
+		}
+	}
+	if verifNondetBool("overlap") {
+		// whatever the node reports for the repeats, Node.sync logs it and carries on
+		_ = s.pullKnown(3, x, -1, false, stale)
+		verifReach("overlapping-answer-processed")
+	} else if err := s.pullTx(3, x, -1, false); err != nil {
+		panic(err)
+	}
+	s.fairPhaseAndCheck([]int{0, 1, 2}, 12)
 	verifReach("end")
 }
